@@ -4,11 +4,12 @@
 (* the observable events of an execution.  It knows nothing about deposit   *)
 (* boxes, intrusive lists or mutexes: only                                  *)
 (*   wait(w,r)      coroutine w is about to co_await (round r), ticket of   *)
-(*                  the executor run it is in, kind, does the value match   *)
+(*                  the executor run it is in, kind, value it waits for     *)
 (*   susp(w,r,slot) the on_suspend callback of that wait ran (token exists) *)
 (*   res(w,r)       the coroutine continued after the co_await: ticket of   *)
 (*                  the run, executor it runs in, result                    *)
 (*   call/ret       wake_one / wake_all / cancel(w,r) / set_value / submit  *)
+(*                  setv -> v: the futex word was changed to the new value v *)
 (*   inv            Executor::invoke seam: new ticket, innermost operation  *)
 (*   spurious(w)    a finished (parked) coroutine was resumed again         *)
 (*   (every event carries the thread t it happened on)                       *)
@@ -87,8 +88,14 @@ MInv(e) ==
   /\ bad' = Flag(e.tk \in DOMAIN tkop, "Protocol", "ticket")
   /\ UNCHANGED <<ops, tkused, wst, obl, wact, ctx, nmis, lastcall>>
 
+\* The futex word only grows in the driver's programs (setv = fetch_add, its value is the result of the call).  A wait
+\* on value x is known not to match once a store of a newer value has RETURNED (or x is the value that is never stored).
+Never == 9999
+NewerStored(x, before) ==
+  x = Never \/ \E c \in DOMAIN ops : ops[c].op = "setv" /\ ops[c].ret # 0 /\ ops[c].ret < before /\ ops[c].res > x
+
 MWait(e) ==
-  /\ wst' = Put(wst, Key(e), [st |-> "wait", kind |-> e.kind, match |-> e.match, tk0 |-> e.tk, waitl |-> l, suspl |-> 0,
+  /\ wst' = Put(wst, Key(e), [st |-> "wait", kind |-> e.kind, exp |-> e.exp, mis |-> e.kind = "futex" /\ NewerStored(e.exp, l), tk0 |-> e.tk, waitl |-> l, suspl |-> 0,
                               slot |-> -1, resl |-> 0, restk |-> 0, has |-> TRUE, t |-> e.t, ib |-> e.ib])
   /\ wact' = Put(wact, Key(e), ActiveOps("wakeall"))
   /\ bad' = Flag(Key(e) \in DOMAIN wst, "ResumedExactlyOncePerSuspension", "same_wait_started_twice")
@@ -114,12 +121,13 @@ MSusp(e) ==
   /\ wst' = [wst EXCEPT ![k].suspl = l, ![k].slot = e.slot]
   /\ ctx' = (IF wst[k].kind = "futex" /\ Reuse(k, e.slot) THEN ctx \cup {"slot_reuse_during_wake_all"} ELSE ctx)
              \cup (IF wst[k].kind = "futex" /\ InFlight(k) THEN {"resumed_before_on_suspend_callback"} ELSE {})
-  /\ bad' = Flag(wst[k].kind = "futex" /\ ~wst[k].match, "MismatchDoesNotSuspend", "callback")
+  /\ bad' = Flag(wst[k].kind = "futex" /\ wst[k].mis, "MismatchDoesNotSuspend", "callback")
   /\ UNCHANGED <<ops, tkop, tkused, obl, wact, nmis, lastcall>>
 
 \* obligations on waiter k are discharged by a ticket of an operation that began before the obliged call returned
 Late(o, z) == z = 0 \/ z \notin DOMAIN ops \/ ops[z].call > ops[o.x].ret
-OblClause(o) == IF ops[o.x].op = "wake1" THEN "WakeOneWakesOneIfAnyNotCancelling" ELSE "WakeAllWakesAll"
+OblClause(o) == IF o.cls = "value_changed_before_wake" THEN "NeverLeftSuspendedAfterWakeCondition"
+                ELSE IF ops[o.x].op = "wake1" THEN "WakeOneWakesOneIfAnyNotCancelling" ELSE "WakeAllWakesAll"
 
 MRes(e) ==
   LET k == Key(e) IN
@@ -132,16 +140,16 @@ MRes(e) ==
       zok == z \in DOMAIN ops /\ ops[z].op \in {"wake1", "wakeall", "cancel"}
              /\ (ops[z].op = "cancel" => <<ops[z].w, ops[z].r>> = k)
       mine == {o \in obl : <<o.w, o.r>> = k}
-      late == {o \in mine : Late(o, z)}
+      late == IF ~suspended THEN {} ELSE {o \in mine : Late(o, z)}    \* a wait that did not suspend owes nothing
       lo == CHOOSE o \in late : TRUE
   IN
   /\ wst' = [wst EXCEPT ![k].st = "res", ![k].resl = l, ![k].restk = e.tk, ![k].has = e.has]
   /\ tkused' = IF fut /\ suspended THEN tkused \cup {e.tk} ELSE tkused
   /\ obl' = obl \ mine
-  /\ nmis' = IF fut /\ ~s.match THEN nmis + 1 ELSE nmis
+  /\ nmis' = IF fut /\ ~suspended THEN nmis + 1 ELSE nmis
   /\ bad' = First(<<
         <<s.st # "wait", "ResumedExactlyOncePerSuspension", "continued_twice">>,
-        <<fut /\ ~s.match /\ suspended, "MismatchDoesNotSuspend", "resumed_by_new_run">>,
+        <<fut /\ s.mis /\ suspended, "MismatchDoesNotSuspend", "resumed_by_new_run">>,
         <<fut /\ suspended /\ e.tk \in tkused, "ResumedExactlyOncePerSuspension", "one_dispatch_two_continuations">>,
         <<fut /\ suspended /\ ~zok, "ResumedExactlyOncePerSuspension", "resumed_by_unentitled_operation">>,
         <<e.ex # e.bound, "ResumedOnBoundExecutor", "executor">>,
@@ -162,6 +170,15 @@ Eligible(x) ==
                       /\ wst[k].suspl # 0 /\ wst[k].suspl < ops[x].call
                       /\ ~Cancelling(k, ops[x].call)}
 
+\* FUTEX contract: check-and-enqueue is atomic with respect to wakers.  If a store of a value newer than what k waits
+\* for had returned before wake x was called, k (whose wait began before x returned) either does not suspend or is on
+\* the list when x takes the lock: like every waiter x is obliged to, it must not be left for an operation that began
+\* after x returned.
+LostElig(x) ==
+  {k \in DOMAIN wst : /\ wst[k].kind = "futex" /\ wst[k].st = "wait"
+                      /\ NewerStored(wst[k].exp, ops[x].call)
+                      /\ ~Cancelling(k, ops[x].call)}
+
 MRet(e) ==
   IF e.id \notin DOMAIN ops THEN bad' = Flag(TRUE, "Protocol", "ret_without_call") /\ UNCHANGED <<ops, tkop, tkused, wst, obl, wact, ctx, nmis, lastcall>>
   ELSE
@@ -170,7 +187,9 @@ MRet(e) ==
       cls == IF e.op = "wake1" THEN (IF AnyCancelOverlap(ops[x].call) THEN "cancel_of_other_waiter_overlaps" ELSE "plain") ELSE "plain"
   IN
   /\ ops' = [ops EXCEPT ![x].ret = l, ![x].res = e.res]
-  /\ obl' = IF obliged THEN obl \cup {[x |-> x, w |-> k[1], r |-> k[2], cls |-> cls] : k \in Eligible(x)} ELSE obl
+  /\ obl' = IF obliged THEN obl \cup {[x |-> x, w |-> k[1], r |-> k[2], cls |-> cls] : k \in Eligible(x)}
+                             \cup {[x |-> x, w |-> k[1], r |-> k[2], cls |-> "value_changed_before_wake"] : k \in LostElig(x)}
+             ELSE obl
   /\ bad' = bad
   /\ UNCHANGED <<tkop, tkused, wst, wact, ctx, nmis, lastcall>>
 
